@@ -214,6 +214,12 @@ structure SGraph where
 
 def SGraph.cls (sg : SGraph) (n : Nat) : List Nat := sg.cname.getD n []
 
+/-- class lookup of `load_objects`: `getqualattr(mod, definition["type"])` where `mod` is the imported
+    package module, or — for a class that does not live in a package — the module obtained by executing
+    the *file recorded for that very definition*.  A class name of the model is therefore
+    `module:qualname` for package classes and `<defining file>:qualname` otherwise; the module name under
+    which a file happens to be registered (`__main__`/`_main_`, or the stem shared by two files in different
+    directories) is not part of it: two files registered under one module name hold distinct classes. -/
 def findCls (lib : List Cls) (name : List Nat) : Option Cls := lib.find? (fun c => c.name == name)
 
 def isNone : Val → Bool
